@@ -83,6 +83,7 @@ def main():
         muts = list(mutants.MUTANTS)
         for extra in sorted(glob.glob(os.path.join(HERE, "mutants_*.py"))):
             muts += importlib.import_module(os.path.basename(extra)[:-3]).MUTANTS
+    muts = [m for m in muts if m["props"] != ["EQUIVALENT"]]
     if sel:
         muts = [m for m in muts if any(m["id"].startswith(s) or s in m["props"] for s in sel)]
     missed = 0
